@@ -35,9 +35,26 @@ fn big_group(r: &mut Rng) -> Vec<String> {
     }
     v
 }
+/// Left-anchored plain rules of very different lengths with one option set (one fusion group whose
+/// patterns are tried in id order); the test URLs are the patterns themselves, so some patterns
+/// are longer than the URL at hand.
+fn left_anchored_family(r: &mut Rng) -> Vec<String> {
+    let n = r.range(3, 7);
+    let o = r.pick(&["", "$script", "$image,third-party"]);
+    let host = r.pick(gen::HOSTS);
+    let mut v = vec![];
+    for i in 0..n {
+        let path = match i % 4 { 0 => String::new(), 1 => format!("/{}", r.pick(gen::VOCAB)), 2 => format!("/{}/{}/{}.js", r.pick(gen::VOCAB), r.pick(gen::VOCAB), r.pick(gen::VOCAB)), _ => format!("/{}?{}=1&very-long-query-string-{}", r.pick(gen::VOCAB), r.pick(gen::PARAMS), i) };
+        v.push(format!("|https://{}{}{}", host, path, o));
+    }
+    v
+}
 fn fusable(r: &mut Rng) -> Vec<String> {
     if r.chance(1, 25) {
         return big_group(r);
+    }
+    if r.chance(1, 12) {
+        return left_anchored_family(r);
     }
     let n = r.range(2, 7);
     let opts: &[&str] = &["", "$script", "$image,third-party", "$tag=t1", "$tag=t2", "$important", "$match-case"];
@@ -203,6 +220,17 @@ fn main() {
         let (o0, o1, o2) = (observe(&off, &rs, &req), observe(&on, &rs, &req), observe(&live, &rs, &req));
         println!("unoptimized: {:?}\noptimized:   {:?}\noptimize():  {:?}", o0, o1, o2);
         let mut ext_bad = false;
+        if rp["warm"].as_bool().unwrap_or(false) {
+            let mut warmed = Blocker::new(parse_all(&lines), &BlockerOptions { enable_optimizations: false });
+            warmed.use_tags(&tr);
+            // warm the cache on every rule's own URL and on the request, then optimize
+            let _ = observe(&warmed, &rs, &req);
+            for l in &lines { let mut r2 = Rng::new(1); let u = gen::url_for(&mut r2, l); if let Ok(q) = Request::new(&u, rp["source"].as_str().unwrap(), rp["type"].as_str().unwrap()) { let _ = observe(&warmed, &rs, &q); } }
+            warmed.optimize();
+            let ow = observe(&warmed, &rs, &req);
+            println!("queried, optimize(), queried: {:?}", ow);
+            ext_bad = ow != o0;
+        }
         if let Some(cut) = rp["cut"].as_u64() {
             REJECTED.with(|c| c.set(false));
             let ext = blocker_optimize_then_add(&lines, &tr, (cut as usize).min(lines.len()));
@@ -282,6 +310,26 @@ fn main() {
                         json!({"fn": which, "rules": lines, "tags": tags}),
                         d1.lists.iter().zip(d0.lists.iter()).any(|(x, y)| x.1.iter().map(|b| b.1.len()).sum::<usize>() < y.1.iter().map(|b| b.1.len()).sum::<usize>()),
                     );
+                }
+            }
+            // a live blocker that answered the queries BEFORE optimize() (compiled regexes cached) and is
+            // optimised afterwards: the cache must not leak across the rebuild
+            let mut warmed = Blocker::new(parse_all(&lines), &BlockerOptions { enable_optimizations: false });
+            warmed.use_tags(tags);
+            let mut warm_reqs: Vec<(String, String, &'static str, Request)> = vec![];
+            for _ in 0..3 {
+                if let Some(q) = clean_request(&mut r, &lines) {
+                    let _ = observe(&warmed, &rs, &q.3);
+                    warm_reqs.push(q);
+                }
+            }
+            warmed.optimize();
+            for (url, src, ty, req) in warm_reqs.iter() {
+                sm.oracle_evaluations += 1;
+                let (o0, ow) = (observe(&off, &rs, req), observe(&warmed, &rs, req));
+                if o0 != ow && !has_bad_regex(&lines) {
+                    sm.failure(None, &format!("unoptimized {:?} / queried, then optimize(), then queried again {:?}", o0.v, ow.v),
+                        json!({"rules": lines, "tags": tags, "warm": true, "url": url, "source": src, "type": ty}));
                 }
             }
             // a live blocker that was optimised and then extended through add_filter
